@@ -9,7 +9,7 @@
    the model. *)
 From Coq Require Import Reals List Bool.
 From Coquelicot Require Import Coquelicot.
-From GS Require Import Num Loops C18_Model C18_RInst C18_Analysis C18_Proofs C18_Pipeline C18_Loglik C18_DerivNear C18_Examples C18_FitBook Formulas Formulas_gen C18_Tie.
+From GS Require Import Num Loops C18_Model C18_RInst C18_Analysis C18_Proofs C18_Pipeline C18_Loglik C18_DerivNear C18_Examples C18_FitBook Formulas Formulas_gen C18_Tie C18_History.
 Open Scope R_scope.
 
 (* on the normalize range, normalize returns a number, that number lies in the coded denormalize range, and
@@ -356,3 +356,35 @@ Theorem C18_src_derivative :
     is_derive (src_normalize k p) x (src_derivative k p x).
 Proof. exact src_derivative_exact. Qed.
 Print Assumptions C18_src_derivative.
+
+(* ------------------------------------------------------------------------------------------------------------------
+   Holders of the pipeline (Krige and subclasses; Field / SRF / CondSRF without conditions) as a state machine over
+   operation histories: setters of mean, trend, normalizer (also in-place parameter changes and refits), set_condition,
+   new positions, evaluations.  [K] is the kriging operator as an oracle.  For every number type: an evaluation leaves no
+   trace, so the result after any history is the result of the history with all earlier evaluations removed - a function
+   of the present mean / normalizer / trend / conditions only. *)
+Theorem C18_eval_leaves_no_trace :
+  forall (T : Type) (O : NumOps T) (K : nat -> list (option T) -> list T) (ops1 ops2 : list (@hop T)) (s : @hstate T),
+    run O K (ops1 ++ OEval :: ops2) s = run O K (ops1 ++ ops2) s.
+Proof. exact @eval_leaves_no_trace. Qed.
+Print Assumptions C18_eval_leaves_no_trace.
+
+Theorem C18_result_is_function_of_setters :
+  forall (T : Type) (O : NumOps T) (K : nat -> list (option T) -> list T) (ops : list (@hop T)) (s : @hstate T),
+    snd (hstep O K (run O K ops s) OEval) = Some (heval O K (run O K (no_evals ops) s)).
+Proof. exact @result_is_function_of_setters. Qed.
+Print Assumptions C18_result_is_function_of_setters.
+
+(* at R, after ANY history: an interpolator that is exact at the conditioning points returns the conditioning values
+   when the present detrended data lie in the present normalize range (pipeline round trip with the present parameters) *)
+Theorem C18_history_honours_data :
+  forall (K : nat -> list (option R) -> list R) (ops : list (@hop R)) (s0 : @hstate R),
+    let s := run Rops K ops s0 in
+    length (h_mc s) = length (h_cond s) -> length (h_tc s) = length (h_cond s) ->
+    h_mt s = h_mc s -> h_tt s = h_tc s ->
+    K (h_setup s) (krige_cond Rops s) = strip (krige_cond Rops s) ->
+    List.Forall (fun mtf => in_range Rops (norm_range Rops (h_kind s) (h_par s)) (snd mtf - snd (fst mtf)) = true)
+           (zip3 (h_mc s) (h_tc s) (h_cond s)) ->
+    heval Rops K s = map Some (h_cond s).
+Proof. exact history_honours_data. Qed.
+Print Assumptions C18_history_honours_data.
